@@ -422,6 +422,12 @@ func (s *SMT) traverse() (err lib.ErrorI) {
 			currentKey = s.current.RightChildKey
 		}
 		s.stats.TraverseSteps++
+		// a node without the required child cannot be traversed any further; this only happens in a tree rebuilt from a
+		// proof (VerifyProof), whose sibling nodes are stubs: the proof then says nothing about the target. Looking the
+		// empty key up instead would alias whatever node is kept under it (the rebuilt root) and restart the walk there
+		if len(currentKey) == 0 {
+			return ErrInvalidMerkleTree()
+		}
 		// load current node from the store
 		s.current, err = s.getNode(currentKey)
 		if err != nil {
